@@ -164,6 +164,52 @@ func runC05(r *Report) {
 		})
 	}
 	r.Floor("R-C05-2", 1, "gzip inflate sink in the packet reader")
+	// the inflater is closed on every path: each reader registers with the connection's context, so a
+	// reader that is not closed stays referenced for the life of the connection - memory that grows
+	// with the number of (small, valid) compressed packets a peer sends
+	for _, g := range reach {
+		for _, nc := range Calls(g, false, "compression:NewGzipReader", "gzip:NewReader") {
+			cv, ok := nc.(*ssa.Call)
+			if !ok {
+				continue
+			}
+			var rd ssa.Value = cv
+			if cv.Common().Signature().Results().Len() > 1 {
+				rd = extractOf(cv, 0)
+			}
+			isClose := func(in ssa.Instruction) bool {
+				ci, ok := in.(ssa.CallInstruction)
+				if !ok || CalleeOf(ci).Name != "Close" {
+					return false
+				}
+				rv := Recv(ci)
+				if ci.Common().IsInvoke() {
+					rv = ci.Common().Value
+				}
+				return rv != nil && rd != nil && (stripValue(rv) == stripValue(rd) || valueFromCall(rv, cv))
+			}
+			leaks := false
+			for _, ret := range Returns(g) {
+				hits := WalkFrom(nil, cv, func(in ssa.Instruction) int {
+					if OrDeferred(isClose)(in) {
+						return Stop
+					}
+					if in == ssa.Instruction(ret) {
+						// the error edge of the constructor holds no reader
+						if cv.Common().Signature().Results().Len() > 1 && ErrFailed(ret.Block(), cv) {
+							return Stop
+						}
+						return Hit
+					}
+					return Cont
+				}, nil)
+				if len(hits) > 0 {
+					leaks = true
+				}
+			}
+			r.Ob("R-C05-2", CallPos(nc), !leaks, "the gzip reader created for a packet is closed (call or defer) on every path out of the function", r.P.FuncName(g), "inflater-closed")
+		}
+	}
 
 	// ---- R-C05-3 read loops leave on error -----------------------------------
 	for _, g := range reach {
@@ -200,6 +246,24 @@ func runC05(r *Report) {
 				r.Ob("R-C05-3", CallPos(ci), ok, "a failed packet read ends the connection's read loop: "+why, r.P.FuncName(ci.Parent()), "packet-read-error-exits-loop")
 			}
 		}
+	}
+	// packets of one connection are handled in the read loop, one at a time: a `go HandlePacket(...)`
+	// removes the back-pressure (a peer that never reads its replies makes packets and their payloads
+	// pile up in goroutines without bound) and the order
+	for _, f := range r.P.Funcs {
+		Instrs(f, func(in ssa.Instruction) {
+			gs, ok := in.(*ssa.Go)
+			if !ok {
+				return
+			}
+			started := CalleeOf(gs).Name == "HandlePacket"
+			if fnv := resolveClosure(gs.Call.Value, f, 0); fnv != nil && fnv.Parent() != nil && len(Calls(fnv, false, "HandlePacket")) > 0 {
+				started = true // go func() { ... HandlePacket(p) ... }()
+			}
+			if started {
+				r.Ob("R-C05-3", gs.Pos(), false, "HandlePacket is started as a goroutine from the read loop: the number of packets in flight per connection is no longer bounded by the loop", r.P.FuncName(f), "dispatch-synchronous")
+			}
+		})
 	}
 	if nLoops < 1 { // alarm below 40% of the 2 sites confirmed by hand
 		r.Fail("R-C05-3", 0, fmt.Sprintf("only %d server packet read loops found (2 confirmed by hand)", nLoops), "packet-loops", "floor")
